@@ -263,6 +263,9 @@ def _tables(nsite):
     if nsite >= 4:
         out.append(("long-range pairs and a four-site string", [tuple(1 if j == a else 2 if j == b else 0 for j in range(nsite)) for a in range(nsite) for b in range(nsite) if a < b and (a + b) % 2 == 1]
                     + [tuple([1, 2, 1, 2] + [0] * (nsite - 4))] + [tuple([0] * nsite)]))
+    if nsite == 5:
+        import itertools
+        out.append(("all 32 products of one neutral operator (a bond with more operators than there are primary operators)", [tuple(r) for r in itertools.product((0, 3), repeat=5)]))
     res = []
     for name, rows in out:
         rows = list(dict.fromkeys(rows))
@@ -289,6 +292,11 @@ def _expand(out_ops, child_values, nphys, positions):
     for l_, comp in enumerate(out_ops):
         acc = {}
         qn_here = set()
+        if not isinstance(comp, (list, tuple)) or isinstance(comp, _Op) or any(not hasattr(t, "symbol") for t in comp):
+            probs.append(f"out operator {l_} is {str(comp)[:60]}; expected a list of operator tuples (symbol, qn, factor)")
+            vals.append({})
+            qns.append(set())
+            continue
         for t in comp:
             sym = [int(x) for x in t.symbol]
             if len(sym) != len(child_values) + nphys:
@@ -422,6 +430,7 @@ TREES = [
     ("inner node with a dummy basis set (always the identity)", [("r", 1, None), ("m", "dummy", "r"), ("x", 1, "m"), ("y", 1, "m"), ("z", 1, "r")]),
     ("dummy root", [("r", "dummy", None), ("a", 1, "r"), ("b", 1, "r"), ("c", 1, "b")]),
     ("root with two basis sets above a chain", [("r", 2, None), ("a", 1, "r"), ("b", 1, "a"), ("c", 1, "b")]),
+    ("short first branch, long second branch", [("r", 1, None), ("a", 1, "r"), ("b", 1, "r"), ("b1", 1, "b"), ("b2", 1, "b1")]),
 ]
 
 
@@ -444,7 +453,7 @@ def tree_builder_rule(chk, src, rule):
                 factor = xnp.XA([Fr(f) for f in facs])
                 prim = _primary_ops()
                 composed = []
-                it = _interp(src, {"scipy": Sym("scipy", sparse=xnp.sparse_namespace()), "chain": lambda *a: [x for part in a for x in part],
+                it = _interp(src, {"scipy": Sym("scipy", sparse=xnp.sparse_namespace()), "chain": __import__("itertools").chain,
                                    "Model": lambda b_, terms: Sym("model", basis=list(b_), qn_size=1),
                                    "_terms_to_table": lambda model, terms, const, table=table, factor=factor, prim=prim: (table, prim, factor),
                                    "compose_symbolic_mo_general": lambda in_ops_list, out_ops, primary_ops, k: composed.append((in_ops_list, out_ops, k)) or "mo"})
@@ -634,3 +643,74 @@ def hartree_rule(chk, src, rule):
                "ValueError" if want is ValueError else f"labels {want}", line=fi.node.lineno,
                detail="a product state handed out with bond labels must lie in the sector the labels describe: a site vector spread over local states of different quantum numbers has "
                       "amplitude outside every sector, which later canonicalisation / compression silently drops: " + (probs[0] if probs else ""))
+
+
+def one_term_rule(chk, src, rule):
+    """construct_symbolic_mpo on one-term operators (the builder's short cut): the bond operators it hands out for later site swaps, expanded, are the term with its coefficient,
+    and the symbolic site matrices carry the coefficient exactly once"""
+    fi = src.func(SYMF, "construct_symbolic_mpo")
+
+    class Prim(Sym):
+        """primary operator: multiplication by a number is recorded"""
+        def __init__(self, name, qn, scale=1):
+            super().__init__(name)
+            self.qn, self.scale, self.base = qn, scale, name
+
+        def __rmul__(self, c):
+            return Prim(self._name, self.qn, self.scale * Fr(c))
+
+        __mul__ = __rmul__
+
+        def __hash__(self):
+            return hash((self.base, self.scale))
+
+        def __eq__(self, o):
+            return isinstance(o, Prim) and (o.base, o.scale) == (self.base, self.scale)
+    for nsite, row, coeff in ((1, (3,), Fr(7, 2)), (2, (1, 2), Fr(5)), (3, (1, 0, 2), Fr(-3, 4)), (4, (3, 0, 0, 3), Fr(1, 100))):
+        prim = [Prim(f"primary{i}", xnp.XA([q])) for i, q in sorted(PRIMARY_QN.items())]
+        npx = xnp.namespace()
+        npx.__dict__["full"] = lambda shape, fill=None, **k: xnp.ObjGrid(shape, fill)
+        it = _interp(src, {"np": npx, "scipy": Sym("scipy", sparse=xnp.sparse_namespace())})
+        it.builtins.pop("_compute_qn")
+        it.max_depth = 12
+        probs, res = [], None
+        try:
+            res = it.call_function(fi, [xnp.XA([list(row)]), prim, xnp.XA([coeff]), "Hopcroft-Karp"])
+        except (SymRaise, IndexError, ValueError, AssertionError, KeyError, TypeError) as e:
+            probs.append(f"{type(e).__name__}: {e}")
+        if res is not None:
+            if not (isinstance(res, tuple) and len(res) >= 5):
+                probs.append(f"returns {str(res)[:80]}")
+            else:
+                mpo, out_ops_list = res[0], res[4]
+                if len(out_ops_list) != nsite + 1:
+                    probs.append(f"{len(out_ops_list)} bond operator lists for {nsite} sites")
+                else:
+                    vals = [{(): Fr(1)}]
+                    for b in range(1, len(out_ops_list)):
+                        v, pr, _ = _expand(out_ops_list[b], [vals], 1, [b - 1])
+                        probs.extend(pr)
+                        vals = v
+                    want = {tuple(sorted((j, row[j]) for j in range(nsite))): coeff}
+                    got = {}
+                    for v in vals:
+                        for k_, c_ in v.items():
+                            got[k_] = got.get(k_, 0) + c_
+                    if got != want:
+                        probs.append(f"the bond operators kept for site swaps stand for {dict((str(dict(k_)), str(c_)) for k_, c_ in got.items())}; the operator is {str(dict(list(want)[0]))} with coefficient {coeff}")
+                # the symbolic site matrices: product of the scales = the coefficient
+                try:
+                    scale = Fr(1)
+                    for mo in mpo:
+                        cell = mo[0][0] if not isinstance(mo, xnp.ObjGrid) else mo[0, 0]
+                        if len(cell) != 1:
+                            raise ValueError(f"{len(cell)} operators in a one-term site matrix")
+                        scale *= cell[0].scale
+                    if scale != coeff:
+                        probs.append(f"the symbolic site matrices carry the coefficient {scale}; the term has {coeff}")
+                except (AttributeError, TypeError, ValueError, IndexError) as e:
+                    probs.append(f"symbolic site matrices: {type(e).__name__}: {e}")
+        chk.ob(rule, f"construct_symbolic_mpo[one term on {nsite} site(s), coefficient {coeff}]", not probs, fi.where, probs[:2] or "term and coefficient reproduced by the bond operators and by the site matrices",
+               "bond operators and site matrices both stand for coefficient x term", line=fi.node.lineno,
+               detail="the bond operators are what swap_site expands when two sites are exchanged: a coefficient kept only in the numeric tensors is lost by the first swap that touches the "
+                      "last site: " + (probs[0] if probs else ""))
